@@ -166,6 +166,13 @@ fn relation(op: &Op, pre: &NTree, post: &NTree, res: &Res, sa: &str, da: &str, w
         return v;
     }
     let droot = if via_link && pre.is_real_dir(da) { join(da, base_of(&sroot)) } else { droot };
+    // copied into its own directory: every entry lands on itself, the source has to stay untouched
+    if droot == sroot {
+        if pre != post {
+            v.push(("copy-onto-itself-changes-nothing→changed".into(), pre.diff(post)));
+        }
+        return v;
+    }
     // source untouched
     for k in pre.subtree(&sroot) {
         let inside_dst = k == droot || is_under(&k, &droot);
